@@ -256,3 +256,7 @@ def _r4_6(ctx):
 # sensitivity pack (thorough tier): each seeded edit must be reported by the named rule instance
 MUTANTS = [{'name': 'seeded-C04-a', 'patch': 'C04-a/patch.diff', 'expect': ('R4.2', 'Updater::commit', '')},
            {'name': 'seeded-C04-b', 'patch': 'C04-b/patch.diff', 'expect': ('R4.6', 'index_utxo_entries', 'first_inscription_height')}]
+
+
+# behaviour-preserving edits (thorough tier): the rules must stay silent on every one of them
+NEUTRAL = [{'name': 'first inscription height test written the other way round', 'file': 'src/index/updater.rs', 'old': 'let index_inscriptions = self.height >= self.index.settings.first_inscription_height()\n      && self.index.index_inscriptions;', 'new': 'let first = self.index.settings.first_inscription_height();\n    let index_inscriptions = self.index.index_inscriptions && first <= self.height;'}]
